@@ -36,59 +36,31 @@ RULE = (
     "tables; distinct by canonical hash; non-trivial = accepted and containing at least one select or instance source"
 )
 
-CHOICE_CANON = {"list name": "list_name", "image": "media::image", "audio": "media::audio", "video": "media::video",
-                "big-image": "media::big-image", "caption": "label", "value": "name"}
-SURVEY_CANON = {
-    "relevant": "bind::relevant", "required": "bind::required", "constraint": "bind::constraint",
-    "calculation": "bind::calculate", "read_only": "bind::readonly", "appearance": "control::appearance",
-}
-
-
-def parse_params(raw: str):
-    """The harness's own copy of parameters_generic.parse (the model takes parsed parameters)."""
-    parts = raw.split(";")
-    if len(parts) == 1:
-        parts = raw.split(",")
-    if len(parts) == 1:
-        parts = raw.split()
-    out = {}
-    for p in parts:
-        k, v = p.split("=")[:2]
-        k = k.lower().strip()
-        out[k] = v.strip() if k in ("label", "value") else v.lower().strip()
-    return out
-
-
-def survey_cells(row: dict):
-    out = []
-    for k, v in row.items():
-        if v in (None, ""):
-            continue
-        if k == "parameters":
-            for pk, pv in parse_params(v).items():
-                out.append(["parameters::" + pk, pv])
-        else:
-            out.append([SURVEY_CANON.get(k, k), str(v)])
-    return out
-
-
-def choice_cells(row: dict):
-    return [[CHOICE_CANON.get(k, k), str(v)] for k, v in row.items() if v not in (None, "")]
+def cells(row: dict):
+    """A sheet row as typed: ordered (header, cell) pairs, empty cells left out (as the backends do)."""
+    return [[k, str(v)] for k, v in row.items() if v not in (None, "")]
 
 
 def model_input(form: dict) -> dict:
+    """The workbook as typed: raw headers, raw `parameters` cells.  Header dealiasing, parameter parsing and
+    cell cleaning are the model's (Pyxv.Headers / Pyxv.Controls / Pyxv.Choices.cleanCell)."""
     wb = impl.wb_dict(form)
-    ch_cols = [CHOICE_CANON.get(c, c) for c in (list(wb["choices_header"][0]) if wb.get("choices_header") else [])]
+
+    def cols(sheet):
+        h = wb.get(sheet + "_header")
+        return list(h[0]) if h else []
+
     ext = form.get("external_choices")
     st = (form.get("settings") or [{}])[0]
     return {
         "root": "data",
-        "choices": [choice_cells(r) for r in form.get("choices", [])],
-        "choices_cols": ch_cols,
+        "choices": [cells(r) for r in form.get("choices", [])],
+        "choices_cols": cols("choices"),
         "allow_dup": st.get("allow_choice_duplicates"),
-        "survey": [survey_cells(r) for r in form["survey"]],
-        "ext_header": list(wb["external_choices_header"][0]) if ext is not None and wb.get("external_choices_header") else [],
-        "ext_rows": None if ext is None else [[[k, str(v)] for k, v in r.items() if v not in (None, "")] for r in ext],
+        "survey": [cells(r) for r in form["survey"]],
+        "survey_cols": cols("survey"),
+        "ext_header": cols("external_choices") if ext is not None else [],
+        "ext_rows": None if ext is None else [cells(r) for r in ext],
     }
 
 
@@ -149,6 +121,9 @@ def form_case(ctx, form):
         nontrivial = bool(obs["selects"] or obs["instances"])
         for s in obs["selects"]:
             ctx.count("select:" + ("inline" if s["items"] else "query" if s["query"] else "itemset"))
+            ns = (s["itemset"] or {}).get("nodeset") or s["query"] or ""
+            if "../" in ns:
+                ctx.count("select:relative-ref" + ("-current" if "current()/.." in ns else ""))
         ctx.count("instances", len(obs["instances"]))
         if obs["csv"] is not None:
             ctx.count("itemsets-csv")
